@@ -649,6 +649,97 @@ func c19Free(idx, n, c int, rng *rand.Rand, hold string, holdDur time.Duration, 
 	return res, nil
 }
 
+// c19Starts: start conditions outside the gates' reach.
+//
+//	early-joiner   a joiner calls Join before the leader exists and retries until it succeeds (every attempt must
+//	               return: refused or joined), then the mesh must form as always
+//	hosts          the parties listen on distinct loopback hosts (127.0.0.1, 127.0.0.2, ...), two of them on the
+//	               same port number: an address is a host AND a port
+func c19Starts(idx int, kind string, rng *rand.Rand) (*Result, error) {
+	n, c := 3+rng.Intn(2), 2
+	res := &Result{Case: idx, Class: "start:" + kind, Sample: map[string]interface{}{"n": n, "c": c}}
+	r, err := newMeshRun(n, c, res)
+	if err != nil {
+		return nil, err
+	}
+	defer r.close()
+	r.s.open = true
+	r.s.delayRng = rand.New(rand.NewSource(rng.Int63()))
+	if kind == "hosts" {
+		_, port2, _ := net.SplitHostPort(r.addrs[2])
+		for p := 0; p < n; p++ {
+			_, port, _ := net.SplitHostPort(r.addrs[p])
+			if p == 1 {
+				port = port2
+			}
+			r.addrs[p] = fmt.Sprintf("127.0.0.%d:%s", p+1, port)
+			l, err := net.Listen("tcp", r.addrs[p])
+			if err != nil {
+				res.Class = "start:hosts:not-available"
+				return res, nil
+			}
+			l.Close()
+		}
+	}
+	early := -1
+	earlyDone := make(chan error, 1)
+	if kind == "early-joiner" {
+		early = 1 + rng.Intn(n-1)
+		go func() {
+			for try := 0; try < 200; try++ {
+				ret := make(chan error, 1)
+				go func() { ret <- r.join(early) }()
+				select {
+				case err := <-ret:
+					if err == nil {
+						earlyDone <- nil
+						return
+					}
+				case <-time.After(8 * time.Second):
+					earlyDone <- fmt.Errorf("Join of party %d, called before the leader existed, does not return", early)
+					return
+				}
+				time.Sleep(40 * time.Millisecond)
+			}
+			earlyDone <- fmt.Errorf("Join of party %d never succeeded", early)
+		}()
+		time.Sleep(250 * time.Millisecond)
+	}
+	if err := r.create(); err != nil {
+		if kind == "hosts" {
+			res.viol("start:listen", "the leader cannot listen on its own address %s: %v", r.addrs[0], err)
+			return res, nil
+		}
+		return nil, err
+	}
+	for j := 1; j < n; j++ {
+		if j == early {
+			continue
+		}
+		if err := r.join(j); err != nil {
+			if kind == "hosts" {
+				res.viol("start:listen", "party %d cannot join with its own address %s (two parties share the port number on different hosts): %v", j, r.addrs[j], err)
+				return res, nil
+			}
+			return nil, err
+		}
+	}
+	if early >= 0 {
+		if err := <-earlyDone; err != nil {
+			res.viol("start:early-joiner", "%v", err)
+			return res, nil
+		}
+	}
+	if !r.s.waitFor(20*time.Second, r.allDone) {
+		res.viol("stall", "mesh formation does not terminate (%s, n=%d c=%d)", kind, n, c)
+		return res, nil
+	}
+	time.Sleep(20 * time.Millisecond)
+	r.finalCheck()
+	res.Nontrivial = true
+	return res, nil
+}
+
 // c19Idle: how long the formed mesh stays unused before the token exchange of the final check
 var c19Idle time.Duration
 
@@ -796,6 +887,13 @@ func c19Main(args []string) error {
 		}
 		r.Class = "slow:idle-then-data"
 		out.put(r)
+		for k, kind := range []string{"early-joiner", "hosts", "early-joiner"} {
+			r, err := c19Starts(len(points)+10+k, kind, rng)
+			if err != nil {
+				return err
+			}
+			out.put(r)
+		}
 		return nil
 	case "free":
 		out, err := newND(args[1])
